@@ -48,6 +48,9 @@ def run_integer_acceptance(chk, tier):
     cases = [c for c in leafrt.field_cases().values() if c.kind == "int" and c.direct]
     for c in cases:
         ls.append(xh.Lemma("acc_%s" % c.id, [("x", "int")], ["a = R.conv_accepts(%r, x)" % c.id, "return a[0] and a[1] == x and R.roundtrip_field(%r, x) == x" % c.id], pre=["%d <= x <= %d" % (c.detail["lo"], c.detail["hi"])], meta={"site": "%s accepts and keeps every %s" % (c.site, c.detail["base"]), "case": c.id}))
+    # a JSON number without a fraction is a valid `decimal` too (1 and 1.0 are the same JSON number)
+    for c in [c for c in leafrt.field_cases().values() if c.kind == "decimal" and c.direct]:
+        ls.append(xh.Lemma("acc_%s" % c.id, [("x", "int")], ["a = R.conv_accepts(%r, x)" % c.id, "return a[0] and a[1] == x and R.roundtrip_field(%r, x) == x" % c.id], pre=["-(2**53) <= x <= 2**53"], meta={"site": "%s accepts and keeps every integral JSON number (decimal)" % c.site, "case": c.id}))
     results, stats = xh.run(ls, ["from vlib import leafrt as R", "R.field_cases()"], timeout=120 if tier == "thorough" else 45, label="intacc")
     chk.ev.add_counts(xh.summarize(results))
     chk.ev.coverage["solver_seconds"] += stats["cpu_s"]
